@@ -28,7 +28,9 @@ open Kit.Locks
 /-- why `rcancel` ran for a reader (its context is then cancelled with the configured cause) -/
 inductive Why where
   | own                         -- the reader's own release
-  | timeout (st : Nat)          -- a grace goroutine whose timer, started at `st`, fired (then `st + grace ≤ now`)
+  | timeout (st : Nat) (by_ : Option (Tid × Nat))
+                                -- a grace goroutine whose timer, started at `st`, fired (then `st + grace ≤ now`);
+                                -- `by_` = the writer hold whose section launched it (none: the shutdown path)
   | closed                      -- a grace goroutine woken by `closeCh` (shutdown)
   | done                        -- a grace goroutine woken by `doneCh` (rcancel had already run)
   deriving DecidableEq, Repr
@@ -44,7 +46,7 @@ inductive HPC where
   | have (t : Tid) (g : Nat) (w : Bool)   -- hold received, before `lock<-`
   | slot (t : Tid) (g : Nat) (w : Bool)   -- slot taken, before the section
   | wait (t : Tid) (g : Nat)              -- writer: grace goroutines launched, in wg.Wait()
-  | rel (t : Tid)                 -- reader answered, before `<-lock`
+  | rel (t : Tid) (g : Nat)               -- reader answered, before `<-lock`
   | exiting                       -- loop left, deferred launch pending
   | dead
   deriving DecidableEq, Repr
@@ -52,6 +54,7 @@ inductive HPC where
 structure Grace where
   st : Nat
   byShutdown : Bool
+  launchedFor : Option (Tid × Nat)   -- ghost: the writer hold `(w, gen)` whose section launched it
   woke : Option Why      -- select returned (reason), rcancel() not yet run
   deriving DecidableEq, Repr
 
@@ -104,8 +107,9 @@ def rcancel (s : State) (t : Tid) (why : Why) : State :=
   if s.live t then { s with live := upd s.live t false, told := upd s.told t (some why) } else s
 
 /-- launch the grace goroutine of every live reader (writer section / deferred at exit) -/
-def launchAll (s : State) (byShutdown : Bool) : Nat → Option Grace := fun t =>
-  if t < s.n ∧ s.live t = true then some { st := s.now, byShutdown := byShutdown, woke := none }
+def launchAll (s : State) (byShutdown : Bool) (launchedFor : Option (Tid × Nat)) : Nat → Option Grace := fun t =>
+  if t < s.n ∧ s.live t = true then
+    some { st := s.now, byShutdown := byShutdown, launchedFor := launchedFor, woke := none }
   else s.graces t
 
 def stepCore (s : State) : L → Option State
@@ -197,19 +201,19 @@ def stepCore (s : State) : L → Option State
       else if !w && s.parentDone t then some { s with resp := deliver s t g true, hpc := .idle }
       else none
     | .slot t g true =>        -- writer section: launch every reader's graceful cancel
-      some { s with graces := launchAll s false, hpc := .wait t g }
+      some { s with graces := launchAll s false (some (t, g)), hpc := .wait t g }
     | .slot t g false =>       -- reader section: wg.Add, register, answer
       -- (a grace goroutine left over from an earlier, finished registration of this caller can
       -- only run a no-op rcancel: it is dropped here)
       some { s with live := upd s.live t true, graces := upd s.graces t none,
-                    resp := deliver s t g false, hpc := .rel t }
+                    resp := deliver s t g false, hpc := .rel t g }
     | .wait t g =>             -- wg.Wait(); answer; the slot stays taken
       if noLive s then some { s with resp := deliver s t g false, hpc := .idle } else none
-    | .rel _ =>                -- <-o.lock
+    | .rel _ _ =>              -- <-o.lock
       match s.slot with
       | some _ => some { s with slot := none, hpc := .idle }
       | none => none
-    | .exiting => some { s with graces := launchAll s true, hpc := .dead }
+    | .exiting => some { s with graces := launchAll s true none, hpc := .dead }
     | .dead => none
   | .sys 1 _ =>                -- the closer
     if s.runCancelled && !s.closed then some { s with closed := true } else none
@@ -219,7 +223,7 @@ def stepCore (s : State) : L → Option State
       match g.woke with
       | none =>
         if alt = 0 then
-          (if s.now ≥ g.st + s.grace then some { s with graces := upd s.graces i (some { g with woke := some (.timeout g.st) }) } else none)
+          (if s.now ≥ g.st + s.grace then some { s with graces := upd s.graces i (some { g with woke := some (.timeout g.st g.launchedFor) }) } else none)
         else if alt = 1 then
           (if s.closed then some { s with graces := upd s.graces i (some { g with woke := some .closed }) } else none)
         else
